@@ -46,23 +46,25 @@ VARIABLES rec,      \* the recipe under test (sequence of Providers)
           frames,   \* search: stack of _send_inner activations [off, cur, prev, wait]
           ret,      \* search: a response or failure travelling to the parent frame
           log,      \* consult log: provider indices in the order their handlers were called
-          res       \* final outcome
-vars == <<rec, phase, bi, combo, items, frames, ret, log, res>>
+          res,      \* final outcome
+          stub      \* what the recursion stub of the requested location is bound to (RecursiveRequestBus.send: track_response binds
+                    \* it to the response of the OUTERMOST send; send_chaining - provide_from_next - must not track)
+vars == <<rec, phase, bi, combo, items, frames, ret, log, res, stub>>
 
 NoRet == [has |-> FALSE, ok |-> FALSE, term |-> <<>>]
 R == Full(rec)
 
 Init == /\ rec = <<>> /\ phase = "pick" /\ bi = 0 /\ combo = <<>> /\ items = <<>>
-        /\ frames = <<>> /\ ret = NoRet /\ log = <<>> /\ res = NoRet
+        /\ frames = <<>> /\ ret = NoRet /\ log = <<>> /\ res = NoRet /\ stub = <<>>
 
 AddProvider == /\ phase = "pick"
                /\ Len(rec) < MaxLen
                /\ \E p \in Providers : rec' = Append(rec, p)
-               /\ UNCHANGED <<phase, bi, combo, items, frames, ret, log, res>>
+               /\ UNCHANGED <<phase, bi, combo, items, frames, ret, log, res, stub>>
 
 StartBuild == /\ phase = "pick"
               /\ phase' = "build"
-              /\ UNCHANGED <<rec, bi, combo, items, frames, ret, log, res>>
+              /\ UNCHANGED <<rec, bi, combo, items, frames, ret, log, res, stub>>
 
 \* ExactOriginCombiner._stop_combo : what is flushed, and what stays in the combo
 Flushed(cb) == IF cb = <<>> THEN <<>>
@@ -83,7 +85,7 @@ Register == /\ phase = "build"
                   ELSE /\ items' = (items \o Flushed(combo)) \o <<One(i)>>
                        /\ combo' = AfterFlush(combo)
             /\ bi' = bi + 1
-            /\ UNCHANGED <<rec, phase, frames, ret, log, res>>
+            /\ UNCHANGED <<rec, phase, frames, ret, log, res, stub>>
 
 \* ExactOriginCombiner.finalize, then the first send(request): _send_inner(request, 0)
 Finalize == /\ phase = "build"
@@ -92,7 +94,7 @@ Finalize == /\ phase = "build"
             /\ combo' = AfterFlush(combo)
             /\ phase' = "search"
             /\ frames' = <<[off |-> 0, cur |-> 0, prev |-> 0, wait |-> FALSE]>>
-            /\ UNCHANGED <<rec, bi, ret, log, res>>
+            /\ UNCHANGED <<rec, bi, ret, log, res, stub>>
 
 Top == frames[Len(frames)]
 SetTop(f) == [frames EXCEPT ![Len(frames)] = f]
@@ -112,7 +114,7 @@ Route == /\ phase = "search" /\ ~ret.has
                 i == Hit(items[j])
             IN /\ frames' = SetTop([off |-> j, cur |-> i, prev |-> Top.prev, wait |-> FALSE])
                /\ log' = Append(log, i)
-         /\ UNCHANGED <<rec, phase, bi, combo, items, ret, res>>
+         /\ UNCHANGED <<rec, phase, bi, combo, items, ret, res, stub>>
 
 \* route_handler raised StopIteration: this _send_inner fails with (Aggregate)CannotProvide
 FrameFail == /\ phase = "search" /\ ~ret.has
@@ -120,7 +122,7 @@ FrameFail == /\ phase = "search" /\ ~ret.has
              /\ HitPositions(Top.off) = {}
              /\ frames' = SubSeq(frames, 1, Len(frames) - 1)
              /\ ret' = [has |-> TRUE, ok |-> FALSE, term |-> <<>>]
-             /\ UNCHANGED <<rec, phase, bi, combo, items, log, res>>
+             /\ UNCHANGED <<rec, phase, bi, combo, items, log, res, stub>>
 
 \* the consulted handler returns a response of its own
 Return == /\ phase = "search" /\ ~ret.has
@@ -128,14 +130,14 @@ Return == /\ phase = "search" /\ ~ret.has
           /\ R[Top.cur].h = "plain"
           /\ frames' = SubSeq(frames, 1, Len(frames) - 1)
           /\ ret' = [has |-> TRUE, ok |-> TRUE, term |-> <<Top.cur>>]
-          /\ UNCHANGED <<rec, phase, bi, combo, items, log, res>>
+          /\ UNCHANGED <<rec, phase, bi, combo, items, log, res, stub>>
 
 \* the consulted handler raises CannotProvide: the bus loop continues behind it
 Decline == /\ phase = "search" /\ ~ret.has
            /\ Top.cur # 0 /\ ~Top.wait
            /\ R[Top.cur].h = "decline"
            /\ frames' = SetTop([Top EXCEPT !.prev = Top.cur, !.cur = 0])
-           /\ UNCHANGED <<rec, phase, bi, combo, items, ret, log, res>>
+           /\ UNCHANGED <<rec, phase, bi, combo, items, ret, log, res, stub>>
 
 \* the consulted handler raises a terminal CannotProvide: every _send_inner activation re-raises it
 Abort == /\ phase = "search" /\ ~ret.has
@@ -143,7 +145,7 @@ Abort == /\ phase = "search" /\ ~ret.has
          /\ R[Top.cur].h = "abort"
          /\ frames' = <<>>
          /\ ret' = [has |-> TRUE, ok |-> FALSE, term |-> <<>>]
-         /\ UNCHANGED <<rec, phase, bi, combo, items, log, res>>
+         /\ UNCHANGED <<rec, phase, bi, combo, items, log, res, stub>>
 
 \* the consulted handler calls mediator.provide_from_next(): send_chaining(request, search_offset)
 FromNext == /\ phase = "search" /\ ~ret.has
@@ -151,7 +153,7 @@ FromNext == /\ phase = "search" /\ ~ret.has
             /\ R[Top.cur].h \in {"first", "last", "deleg"}
             /\ frames' = Append(SetTop([Top EXCEPT !.wait = TRUE]),
                                 [off |-> Top.off, cur |-> 0, prev |-> 0, wait |-> FALSE])
-            /\ UNCHANGED <<rec, phase, bi, combo, items, ret, log, res>>
+            /\ UNCHANGED <<rec, phase, bi, combo, items, ret, log, res, stub>>
 
 \* a nested search came back to the handler that asked for it
 Resume == /\ phase = "search" /\ ret.has /\ frames # <<>>
@@ -161,12 +163,13 @@ Resume == /\ phase = "search" /\ ret.has /\ frames # <<>>
                   /\ ret' = [has |-> TRUE, ok |-> TRUE, term |-> Compose(R[Top.cur].h, Top.cur, ret.term)]
              ELSE /\ frames' = SetTop([Top EXCEPT !.prev = Top.cur, !.cur = 0, !.wait = FALSE])  \* CannotProvide: decline
                   /\ ret' = NoRet
-          /\ UNCHANGED <<rec, phase, bi, combo, items, log, res>>
+          /\ UNCHANGED <<rec, phase, bi, combo, items, log, res, stub>>
 
 Finish == /\ phase = "search" /\ ret.has /\ frames = <<>>
           /\ res' = ret
           /\ ret' = NoRet
           /\ phase' = "done"
+          /\ stub' = ret.term                  \* track_response: every recursive re-entry of the location runs the composed result
           /\ UNCHANGED <<rec, bi, combo, items, frames, log>>
 
 Next == AddProvider \/ StartBuild \/ Register \/ Finalize \/ Route \/ FrameFail \/ Return \/ Decline \/ Abort
@@ -189,6 +192,10 @@ NestedBehind == \A k \in 2..Len(frames) : frames[k].cur = 0 \/ frames[k].cur > f
 
 \* a chained function is applied exactly once in the produced loader
 ChainOnce == phase = "done" /\ res.ok => \A a, b \in 1..Len(res.term) : a # b => res.term[a] # res.term[b]
+
+\* a location that is re-entered recursively runs the same composition as the first entry: Chain.FIRST / Chain.LAST apply
+\* exactly once at EVERY level of a recursive datum (replayed on self-referential models by vf/props/c09.py recursive_chains)
+StubIsFinal == phase = "done" /\ res.ok => stub = res.term
 
 \* a terminal refusal ends the request at once: nothing is consulted after the aborting provider
 AbortIsLast == phase = "done" => \A a \in 1..Len(log) : R[log[a]].h = "abort" => (a = Len(log) /\ ~res.ok)
